@@ -206,7 +206,10 @@ func init() {
 // twice on one model with EVERY range over EVERY map exploring all iteration orders
 // (-all-map-orders): both executions must return the same sequence. Today none of them
 // ranges over a map; a change that makes one of them do so is decided here.
-func VerifC19_ReferencedIncludes() {
+// verifIncludeModel builds a program with three includes whose types are referenced
+// from scope operations and service methods, plain or as map key / list element; it
+// also returns which includes the scope and the service reference.
+func verifIncludeModel() (*Frugal, map[string]bool, map[string]bool) {
 	names := []string{"alpha", "beta", "gamma"}
 	f := &Frugal{Name: "p", ParsedIncludes: map[string]*Frugal{}, typedefIndex: map[string]*TypeDef{}, namespaceIndex: map[string]*Namespace{}}
 	for _, n := range names {
@@ -215,21 +218,69 @@ func VerifC19_ReferencedIncludes() {
 		f.ParsedIncludes[n] = inc
 		f.Includes = append(f.Includes, &Include{Name: n, Value: n + ".frugal"})
 	}
-	ty := func() *Type {
-		n := names[verifChoice(3)] + ".T"
-		if verifNondetBool() {
+	istart, sstart, k := verifChoice(3), verifChoice(4), 0
+	ty := func(used map[string]bool) *Type {
+		// successive uses cycle through the includes and the four shapes from a chosen start
+		k++
+		inc := names[(istart+k)%3]
+		used[inc] = true
+		n := inc + ".T"
+		switch (sstart + k) % 4 {
+		case 1:
 			return &Type{Name: "map", KeyType: &Type{Name: n}, ValueType: &Type{Name: "string"}}
+		case 2:
+			return &Type{Name: "list", ValueType: &Type{Name: n}}
+		case 3:
+			return &Type{Name: "map", KeyType: &Type{Name: "i32"}, ValueType: &Type{Name: "set", ValueType: &Type{Name: n}}}
 		}
 		return &Type{Name: n}
 	}
-	f.Scopes = []*Scope{{Name: "Ev", Prefix: &ScopePrefix{String: ""}, Operations: []*Operation{{Name: "A", Type: ty()}, {Name: "B", Type: ty()}, {Name: "C", Type: &Type{Name: "gamma.T"}}}}}
+	scopeUses, svcUses := map[string]bool{"gamma": true}, map[string]bool{"alpha": true}
+	f.Scopes = []*Scope{{Name: "Ev", Prefix: &ScopePrefix{String: ""}, Operations: []*Operation{{Name: "A", Type: ty(scopeUses)}, {Name: "B", Type: ty(scopeUses)}, {Name: "C", Type: &Type{Name: "gamma.T"}}}}}
 	f.Services = []*Service{{Name: "Svc", Methods: []*Method{
-		{Name: "m", ReturnType: ty(), Arguments: []*Field{{ID: 1, Name: "a", Type: ty()}}},
+		{Name: "m", ReturnType: ty(svcUses), Arguments: []*Field{{ID: 1, Name: "a", Type: ty(svcUses)}}},
 		{Name: "n", ReturnType: &Type{Name: "alpha.T"}},
 	}}}
 	f.Scopes[0].Frugal = f
 	f.Services[0].Frugal = f
 	f.assignFrugal()
+	return f, scopeUses, svcUses
+}
+
+func init() {
+	verifHarnesses["VerifC11_ReferencedIncludes"] = VerifC11_ReferencedIncludes
+}
+
+// C11: generated files import exactly the includes they use. The import lists of every
+// target come from Scope / Service .ReferencedIncludes: each must name exactly the
+// includes whose types occur in the scope's operations / the service's signatures -
+// also when a type occurs only as a map key or inside a nested container (a missing
+// import makes the generated Go fail to compile).
+func VerifC11_ReferencedIncludes() {
+	f, scopeUses, svcUses := verifIncludeModel()
+	check := func(got []*Include, err error, want map[string]bool, what string) {
+		verifAssert(err == nil, what+": no error")
+		seen := map[string]bool{}
+		for _, i := range got {
+			verifAssert(want[i.Name], what+": only referenced includes are listed")
+			verifAssert(!seen[i.Name], what+": no include is listed twice")
+			seen[i.Name] = true
+		}
+		verifAssert(len(seen) == len(want), what+": every referenced include is listed")
+	}
+	a, e1 := f.Scopes[0].ReferencedIncludes()
+	check(a, e1, scopeUses, "scope imports")
+	b, e2 := f.Services[0].ReferencedIncludes()
+	check(b, e2, svcUses, "service imports")
+	c, e3 := f.ReferencedScopeIncludes()
+	check(c, e3, scopeUses, "scope file imports")
+	d, e4 := f.ReferencedServiceIncludes()
+	check(d, e4, svcUses, "service file imports")
+	verifReach("end")
+}
+
+func VerifC19_ReferencedIncludes() {
+	f, _, _ := verifIncludeModel()
 	same := func(a, b []*Include) bool {
 		if len(a) != len(b) {
 			return false
